@@ -123,6 +123,9 @@ def extra_checks(tier, seed, consts):
         out = [int(t, 16) for t in c.out.split()[1:]]
         if len(out) != 21 * n + 8:
             continue
+        # the spec (Nat arithmetic) and the bridge theorem speak about leaf-accepted statements: amounts below 2^32
+        if any(l[1] >= 2 ** 32 or l[2] >= 2 ** 32 for l in leaves):
+            continue
         nulls = out[8 + 10 * n: 8 + 14 * n]
         flat = [str(x) for l in leaves for x in l] + [str(x) for x in nulls]
         lines.append("%d %s" % (n, " ".join(flat)))
